@@ -5,16 +5,18 @@ import "time"
 func c06Jobs(tier string) []Job {
 	var js []Job
 	// packed GSM-7 through the splitter itself and through the SMPP entry point
-	ts := []int{0, 1, 7, 8, 159, 160, 161, 305, 306, 307}
+	// (2..6 and 166 = 153+13 bring the septet count of the last part to every remainder modulo 8:
+	// the packer has one branch per remainder)
+	ts := []int{0, 1, 2, 3, 4, 5, 6, 7, 8, 159, 160, 161, 166, 305, 306, 307}
 	if tier == "thorough" {
-		ts = append(ts, 2, 15, 16, 152, 153, 154, 162, 304, 308, 458, 459, 460, 461, 612, 613)
+		ts = append(ts, 13, 15, 16, 152, 153, 154, 155, 156, 157, 158, 162, 163, 164, 165, 167, 168, 304, 308, 458, 459, 460, 461, 612, 613)
 	}
 	for _, t := range ts {
 		for entry := 0; entry <= 1; entry++ {
 			if t == 0 && entry == 0 {
 				continue
 			}
-			js = append(js, Job{Dir: "", Harness: "VH_C06_packed", Params: map[string]int{"T": t, "entry": entry}, Weight: t, Timeout: 2 * time.Minute, NoEnd: false})
+			js = append(js, Job{Dir: "", Harness: "VH_C06_packed", Params: map[string]int{"T": t, "entry": entry}, Weight: t, Timeout: 6 * time.Minute, NoEnd: false})
 		}
 	}
 	as := []int{0, 1, 140, 141, 268, 269}
@@ -79,7 +81,7 @@ func init() {
 	register(&PropSpec{
 		ID: "C06", Jobs: c06Jobs, Functions: fns, Stubs: stubs,
 		Bounds: map[string]string{
-			"packed GSM-7": "every valid septet stream of length T (content symbolic; escape pairs anywhere within 3 septets before / 1 after each multiple of 153, in the first 2 and last 3 septets, and anywhere for T <= 8), T in {0,1,7,8,159,160,161,305,306,307} (thorough adds up to 613 = 4 parts); oracle: reference segmentation + reference packer",
+			"packed GSM-7": "every valid septet stream of length T (content symbolic; escape pairs anywhere within 3 septets before / 1 after each multiple of 153, in the first 2 and last 3 septets, and anywhere for T <= 8), T in {0..8,159,160,161,166,305,306,307} - the last part's septet count takes every remainder modulo 8 (thorough adds 152..158, 162..168 and up to 613 = 4 parts); oracle: reference segmentation + reference packer",
 			"ASCII":        "every ASCII text of T octets through the CMPP and SMPP entry points, T in {0,1,140,141,268,269} (thorough up to 537)",
 			"UCS-2":        "every text of T ASCII-range characters, T in {1,70,71,134,135} (thorough up to 202), both entry points",
 			"fallback":     "texts 'a'+r for every BMP scalar r >= 0x80 (symbolic); every invalid coding number (symbolic int); T concrete ASCII letters followed by one symbolic CJK character (T in {69,70,80}, thorough up to 134) requested as SMPP GSM-7 unpacked/packed, ASCII, Latin-1 and CMPP ASCII",
